@@ -233,10 +233,24 @@ def case_attr(case):
     R = env.R()
     ureg = env.ureg("Fraction")
     s, x = case["system"], case["name"]
-    want = R.spell.get(f"{s}_{x}") or R.spell.get(x)
-    if want is None:
-        rs = R.readings(x)
-        want = (rs[0][0] + rs[0][1]) if rs else None
+    if case.get("casei"):
+        # a registry that is not case sensitive: the variant is found whatever the case of the attribute
+        ureg = env.ureg("Fraction", case_sensitive=False)
+        def ci(word):
+            hits = sorted({R.spell[sp] for sp in R.spell if sp.lower() == word.lower()})
+            return hits[0] if len(hits) == 1 else None
+        want = ci(f"{s}_{x}") or ci(x)
+        if want is None:
+            raise Skip("no_single_case_insensitive_reading")
+    else:
+        want = R.spell.get(f"{s}_{x}") or None
+        if want is None:
+            # the variant may itself be written with a prefix or in the plural (whatever the registry's parser accepts for '<system>_<name>')
+            rs = [r_ for r_ in R.readings(f"{s}_{x}") if r_[1] in R.units]
+            want = (rs[0][0] + rs[0][1]) if rs else R.spell.get(x)
+        if want is None:
+            rs = R.readings(x)
+            want = (rs[0][0] + rs[0][1]) if rs else None
     st_, got = attempt(lambda: getattr(getattr(ureg.sys, s), x))
     if want is None:
         if st_ == "ok":
@@ -262,6 +276,11 @@ def run_attrs(task, tier, seed, col):
         for x in variants + pool[:: (6 if tier == "quick" else 1)] + ["pint", "gallon", "ton", "hundredweight", "not_a_unit_xyz"]:
             col.case(("at", s, x), f"{s}_{x}" in R.spell, sample={"system": s, "attribute": x}, cls="variant" if f"{s}_{x}" in R.spell else "plain")
             col.run_case(case_attr, {"system": s, "name": x})
+        # plural and differently cased attributes of the variants
+        for x in variants:
+            for y, ci_ in ((x + "s", False), (x.upper(), True), (x.capitalize(), True), (x, True)):
+                col.case(("at", s, y, ci_), True, sample={"system": s, "attribute": y, "case_insensitive_registry": ci_}, cls="variant:plural" if not ci_ else "variant:casei")
+                col.run_case(case_attr, {"system": s, "name": y, "casei": ci_})
     col.exhaustive = tier == "thorough"
 
 
@@ -310,7 +329,38 @@ def case_gensys(case, col=None):
         logging.disable(logging.NOTSET)
 
 
+def case_refused_system(case, col=None):
+    """a @system block whose later rule is invalid is refused as a whole: the registry does not know the system afterwards (not through get_system,
+    ureg.sys, default_system or system=), and the corrected block can be defined under the same name and works"""
+    import pint
+
+    ureg = env.fresh("Fraction")
+    name = "sysbad"
+    bad = ["@system " + name, "    centimeter", "    " + case["bad_rule"], "@end"]
+    good = ["@system " + name, "    centimeter", "    gram", "@end"]
+    if col is not None:
+        col.case(("rs", case["bad_rule"]), True, sample=case, cls="refused_system")
+    s_, r_ = attempt(ureg.load_definitions, bad)
+    if s_ == "ok":
+        raise Violation("invalid_system_definition_accepted", f"{bad}")
+    for tag, fn in (("get_system", lambda: ureg.get_system(name, False)), ("sys", lambda: getattr(ureg.sys, name)), ("default_system", lambda: setattr(ureg, "default_system", name)),
+                    ("system=", lambda: ureg.get_base_units("newton", system=name))):
+        s2, r2 = attempt(fn)
+        if s2 == "ok":
+            raise Violation(f"refused_system_is_known:{tag}", f"{bad} raised {type(r_).__name__}, yet {tag} answers {r2!r}")
+    if name in dir(ureg.sys):
+        raise Violation("refused_system_is_known:dir", f"{bad}")
+    s3, r3 = attempt(ureg.load_definitions, good)
+    if s3 == "err":
+        raise Violation(f"corrected_system_refused:{exc_class(r3)}", f"after the refused {bad}: {good} raised {type(r3).__name__}: {r3}")
+    f, u = ureg.get_base_units("newton", system=name)
+    if dict(u._units) != {"gram": 1, "centimeter": 1, "second": -2} or f != 100000:
+        raise Violation("corrected_system_wrong", f"newton in the corrected system: {f} {dict(u._units)}")
+
+
 def run_gensys(task, tier, seed, col):
+    for bad_rule in ("nonexistent_unit_xyz", "meter:second", "gram:nonexistent_unit_xyz", "nonexistent_unit_xyz:gram", "newton:joule"):
+        col.run_case(lambda c: case_refused_system(c, col), {"bad_rule": bad_rule})
     R = env.R()
     # (new unit, root unit it replaces)
     cands = {"meter": ["centimeter", "inch", "liter", "hectare", "gallon", "barn", "yard", "acre"], "gram": ["kilogram", "pound", "carat"], "second": ["hour", "hertz", "minute"],
@@ -507,4 +557,4 @@ def run_task(task, tier, seed, col):
 def replay(sub, case):
     if sub == "systems" and case.get("unit") in NONMULT:
         return case_system_nonmult(case)
-    return {"systems": case_system, "compound": case_compound, "attrs": case_attr, "gensys": case_gensys, "groups": case_groups}[sub](case)
+    return {"systems": case_system, "compound": case_compound, "attrs": case_attr, "gensys": (case_refused_system if "bad_rule" in case else case_gensys), "groups": case_groups}[sub](case)
